@@ -61,16 +61,19 @@ thread_local! {
 
 /// Builds the builder's `program` input from the program's `AccountInfo` for either `ContainsOption`.
 pub trait MkInput: CpiProgramInput<HxSets> + Bit {
-    fn mk(info: &AccountInfo) -> Self::Input<'_>;
+    /// `over`: pass an explicit program id where the builder takes one (`ContainsOption = False`)
+    fn mk(info: &AccountInfo, over: bool) -> Self::Input<'_>;
 }
 impl MkInput for True {
-    fn mk(info: &AccountInfo) -> &AccountInfo {
+    fn mk(info: &AccountInfo, _over: bool) -> &AccountInfo {
         info
     }
 }
+/// The program id override used for sets without optionals when the run argument `c` is set.
+pub static OVERRIDE_ID: Pubkey = Pubkey::new_from_array([0xC1; 32]);
 impl MkInput for False {
-    fn mk(_info: &AccountInfo) -> Option<&Pubkey> {
-        None
+    fn mk(_info: &AccountInfo, over: bool) -> Option<&Pubkey> {
+        over.then_some(&OVERRIDE_ID)
     }
 }
 
@@ -90,7 +93,7 @@ where
     if do_cpi {
         let prog = prog.expect("program info stashed");
         let ix = <I as BorshDeserialize>::deserialize(&mut &data[8..])?;
-        let res = HxSets::cpi::<I, S>(ix, accounts.to_cpi_accounts(), <S::ContainsOption as MkInput>::mk(&prog)).invoke();
+        let res = HxSets::cpi::<I, S>(ix, accounts.to_cpi_accounts(), <S::ContainsOption as MkInput>::mk(&prog, run.c)).invoke();
         let class = res_class(res);
         TRACE.with_borrow_mut(|t| match &mut t.cpi {
             Some((c, _)) => *c = class,
